@@ -353,7 +353,9 @@ class Check:
 
     # ---------------------------------------------------------------- evidence
     def write_evidence(self, status_violations):
-        os.makedirs(EVID, exist_ok=True)
+        # extension checks (ids X..: specification coverage beyond the listed properties) keep their evidence apart
+        evid = EVID if not self.pid.startswith('X') else os.path.join(ROOT, 'evidence_ext')
+        os.makedirs(evid, exist_ok=True)
         cov = {
             'states': int(self.states),
             'transitions': int(self.transitions),
@@ -379,7 +381,7 @@ class Check:
             'wall_s': round(time.time() - self.t0, 2),
             'violations': status_violations,
         }
-        path = os.path.join(EVID, '%s.json' % self.pid)
+        path = os.path.join(evid, '%s.json' % self.pid)
         tmp = path + '.tmp'
         with open(tmp, 'w') as f:
             json.dump(ev, f, indent=1, default=str)
